@@ -46,7 +46,20 @@ Full statement (FAILS on the current code, see `insert_before_same_prefix_breaks
 theorem good_step_partial (s : Sheet) (op : Op) (h : Good s) (hok : OpOk s op)
     (hclean : (step s op).2 = .err .noModificationAllowedErr → (step s op).1 = s) : Good (step s op).1 := by
   cases op with
-  | parse init src => exact absurd hok (by simp [OpOk])
+  | parse init src =>
+    obtain ⟨rfl, hsrc⟩ := hok
+    simp only [step] at hclean ⊢
+    by_cases hc : (parseSheet [] src).2 = true
+    · simp only [hc, if_true] at hclean
+      rw [hclean trivial]; exact h
+    · apply good_parseSheet src _ (by simpa using hc)
+      intro r hr
+      have := hsrc r hr
+      cases r with
+      | ns p u a b c => exact this
+      | style x => trivial
+      | media x => trivial
+      | other k => cases k <;> first | exact this | trivial
   | insNs p u idx io =>
     simp only [step] at hclean ⊢
     split
@@ -132,6 +145,14 @@ theorem good_step_partial (s : Sheet) (op : Op) (h : Good s) (hok : OpOk s op)
   | insStyleObj sels idx io =>
     simp only [step]
     exact good_insertStyle h hok
+
+/-- T15.2 (parsing): a sheet parsed from a text without @variables rules (finding
+C15-namespace-after-variables) is consistent: one @namespace rule per prefix and URI is left, every URI a kept
+selector refers to is declared — for every such text, in or out of order, with declared and undeclared prefixes.
+(`(parseSheet [] src).2 = false`: the final clean-up did not raise; it never did in the correspondence runs.) -/
+theorem parse_good_partial (src : List SrcRule) (hsrc : ∀ r ∈ src, SrcOk r) (hc : (parseSheet [] src).2 = false) :
+    Good (parseSheet [] src).1 :=
+  good_parseSheet src hsrc hc
 
 /-- T15.2 (histories): `usedURIs ⊆ declaredURIs` — with one rule per prefix and per URI — holds after every
 history whose steps are outside the known findings, for all sheets and all such histories -/
@@ -624,5 +645,16 @@ example : AllOk W.base [.setNs W.q W.u1, .delNs W.q] ∧
     view (run W.base [.setNs W.q W.u1, .delNs W.q]) = [(W.q, W.u1)] ∧
     (step (run W.base [.setNs W.q W.u1]) (.delNs W.q)).2 = .err .noModificationAllowedErr := by
   refine ⟨⟨by show W.u1 ≠ star; decide, by decide, trivial, by decide, trivial⟩, by decide, by decide⟩
+
+
+/-- … and a history that starts with parsing is admissible as well -/
+example : AllOk [] [.parse [] [.ns W.p W.u1 false false false, .style [[.q .typeSel (.named W.p) W.a]]],
+    .setNs W.q W.u1] := by
+  refine ⟨⟨rfl, ?_⟩, by decide, by show W.u1 ≠ star; decide, by decide, trivial⟩
+  intro r hr
+  simp only [List.mem_cons, List.not_mem_nil, or_false] at hr
+  rcases hr with rfl | rfl
+  · show W.u1 ≠ star; decide
+  · trivial
 
 end CssVerif.C15
